@@ -756,6 +756,20 @@ def check_full_length_constants(p, report, funcs, facts, rule="R1.3"):
     return n
 
 
+def method_by_role(ci, name, predicate):
+    """The method called `name`; if it was renamed, the unique method of the class whose body satisfies
+    `predicate(FunctionDef)` (roles, not names: a renamed private helper keeps its rule)."""
+    m = ci.methods.get(name)
+    if m is not None:
+        return m
+    cands = [f for f in ci.methods.values() if predicate(f.node)]
+    return cands[0] if len(cands) == 1 else None
+
+
+def _calls(fnode, names):
+    return any(isinstance(c, ast.Call) and callname(c) in names for c in ast.walk(fnode))
+
+
 class Report_proxy:
     """Report wrapper that files obligations under other rule ids (rules
     shared between properties)."""
